@@ -2,4 +2,4 @@ From V Require Import model.Base model.Lifecycle.
 Require Extraction.
 Require Import ExtrOcamlBasic.
 Extraction Language OCaml.
-Extraction "../ocaml/c04/model.ml" show_op steps_of.
+Extraction "../ocaml/c04/model.ml" show_op show_op_full steps_of.
